@@ -305,7 +305,7 @@ type rawDir struct {
 // (root first on the wire, every referenced child present exactly once,
 // no unreferenced children, parents before children) and that it expands
 // to exactly the model directory want.
-func checkTree(cas *fakeCAS, od *remoteexecution.OutputDirectory, want *node, requireRootDirectoryDigest bool) error {
+func checkTree(cas *fakeCAS, od *remoteexecution.OutputDirectory, want *node, requireRootDirectoryDigest bool, tol *tolerance) error {
 	data, ok := cas.lookup(od.TreeDigest)
 	if !ok {
 		return fmt.Errorf("tree digest %v is not in the CAS", od.TreeDigest)
@@ -435,6 +435,9 @@ func checkTree(cas *fakeCAS, od *remoteexecution.OutputDirectory, want *node, re
 			if want.children[name].volatile {
 				continue // rewritten while being uploaded: the upload may fail, the file is then left out
 			}
+			if tol.allows(want.children[name]) {
+				continue // its upload was hit by the injected fault
+			}
 			if _, ok := seen[name]; !ok {
 				return fmt.Errorf("%s: model has %s %q, Tree does not list it", where, want.children[name].kind, name)
 			}
@@ -543,7 +546,10 @@ type reported struct {
 // multisets keyed by the declared path string. A string declared k times
 // may be reported 1..k times (the code reports k; the property does not
 // say whether exact duplicates have to be repeated).
-func checkActionResult(cas *fakeCAS, ar *remoteexecution.ActionResult, root *node, paths []string, locs [][]string, requireRootDirectoryDigest bool) error {
+//
+// tol (may be nil) names the entries whose upload was hit by an injected
+// fault: those may be left out, everything else has to be there.
+func checkActionResult(cas *fakeCAS, ar *remoteexecution.ActionResult, root *node, paths []string, locs [][]string, requireRootDirectoryDigest bool, tol *tolerance) error {
 	declared := map[string]int{}
 	locOf := map[string][]string{}
 	var order []string
@@ -588,7 +594,7 @@ func checkActionResult(cas *fakeCAS, ar *remoteexecution.ActionResult, root *nod
 			continue
 		}
 		if len(rs) == 0 {
-			if e.Lenient || e.Volatile {
+			if e.Lenient || e.Volatile || tol.allows(e.Node) {
 				continue
 			}
 			return fmt.Errorf("path %q: model has a %s at %q, ActionResult does not report it", p, e.Kind, strings.Join(locOf[p], "/"))
@@ -610,7 +616,7 @@ func checkActionResult(cas *fakeCAS, ar *remoteexecution.ActionResult, root *nod
 					return fmt.Errorf("output symlink %q: target %q, model target %q", p, r.sym.Target, e.Target)
 				}
 			case "dir":
-				if err := checkTree(cas, r.dir, e.Node, requireRootDirectoryDigest); err != nil {
+				if err := checkTree(cas, r.dir, e.Node, requireRootDirectoryDigest, tol); err != nil {
 					return fmt.Errorf("output directory %q: %v", p, err)
 				}
 			}
